@@ -137,6 +137,8 @@ def _read_nt_doc(payload):
     import tempfile
     from shexer.io.graph.yielder.nt_triples_yielder import NtTriplesYielder
     text = "".join(nt_line(x) + EOLS[payload["eol"]] for x in payload["xs"])
+    if payload.get("bom"):        # "UTF-8 with signature": the byte order mark belongs to no statement
+        text = "\ufeff" + text
     d = tempfile.mkdtemp(prefix="shexer-verif-ntdoc-")
     try:
         ch = payload["channel"]
@@ -177,7 +179,8 @@ def judge_nt_docs(out, rnd, n):
         xs = [s["x"] for s in random_nt_statements(rnd, rnd.randint(2, 5), max_len=5)]
         for x in xs:
             x["comment"] = False
-        docs.append({"id": "ntd%d" % i, "xs": xs, "eol": rnd.choice(sorted(EOLS)), "channel": rnd.choice(["raw", "file", "gz", "xz"])})
+        docs.append({"id": "ntd%d" % i, "xs": xs, "eol": rnd.choice(sorted(EOLS)), "channel": rnd.choice(["raw", "file", "gz", "xz"]),
+                     "bom": rnd.random() < .15})
     results = runner.run_many(_read_nt_doc, docs, chunk=25)
     for r in results:
         if r.get("status") == "harness-error":
